@@ -21,7 +21,7 @@ class UnitError(Exception):
 # --------------------------------------------------------------------------
 # contracts.vrs parsing
 
-SECTION_KW = ("body_entry", "before", "after", "requires", "ensures", "invariant", "invariant_except_break", "ensures_loop", "decreases", "entry", "header", "props", "ret", "flags", "iter", "recommends", "before_body_end")
+SECTION_KW = ("before_tail", "body_entry", "before", "after", "requires", "ensures", "invariant", "invariant_except_break", "ensures_loop", "decreases", "entry", "header", "props", "ret", "flags", "iter", "recommends", "before_body_end")
 
 
 class Clause:
@@ -112,7 +112,7 @@ def parse_contracts(path):
             elif head == "flags":
                 cur.flags |= set(rest.split())
                 sec = None
-            elif head in ("entry", "header", "decreases", "iter", "before_body_end", "body_entry", "before", "after"):
+            elif head in ("entry", "header", "decreases", "iter", "before_body_end", "body_entry", "before", "after", "before_tail"):
                 cur.raw[head] = rest
             else:
                 cur.sections.setdefault(head, [])
@@ -123,7 +123,7 @@ def parse_contracts(path):
         if sec is None:
             raise UnitError("%s:%d: unexpected line" % (path, lineno))
         s = line.strip()
-        if sec in ("entry", "header", "decreases", "iter", "before_body_end", "body_entry", "before", "after"):
+        if sec in ("entry", "header", "decreases", "iter", "before_body_end", "body_entry", "before", "after", "before_tail"):
             cur.raw[sec] = (cur.raw[sec] + "\n" + line) if cur.raw[sec] else line
             continue
         mm = re.match(r"\[([A-Za-z0-9_.\-]+)((?:\s+C\d+)*)\]\s*(.*)$", s)
@@ -225,7 +225,7 @@ class Unit:
         if "R1" in enabled:
             t, n = R.r1_strip_attrs_comments(t, keep)
             self._count("R1", n)
-        for r in ("R2", "R5", "R4", "R6", "R16", "R17", "R3", "R10", "R15"):
+        for r in ("R2", "R5", "R4", "R6", "R16", "R17", "R3", "R10", "R15", "R18"):
             if r in enabled:
                 t, n = R.RULES[r](t)
                 self._count(r, n)
@@ -411,6 +411,12 @@ class Unit:
                 inserts.append((hits[0], "entry", ac.raw["entry"], None))
             if "entry" in c.raw:
                 inserts.append((1, "entry", c.raw["entry"], None))
+            if "before_tail" in c.raw:
+                # immediately before the tail expression (last statement without `;`) of the function body
+                st = R._split_stmts(body, m, 1, len(body) - 1)
+                if not st:
+                    raise LostAnchor("%s: %s has no tail expression" % (it.file, it.name))
+                inserts.append((st[-1][0], "entry", c.raw["before_tail"], None))
             if "before_body_end" in c.raw:
                 inserts.append((len(body) - 1, "entry", c.raw["before_body_end"], None))
         inserts.sort(key=lambda x: x[0])
